@@ -12,7 +12,7 @@
      ([tr] over-approximates "can be truthy without consuming": a repetition whose element is an
      optional repetition is outside);
    - the Comment rule cannot succeed without consuming;
-   - (partial) no UnorderedGroup.
+   - UnorderedGroup: every member and the separator have a smaller rank (its loops end structurally).
    [rxn o] says whether the regex terminal with oracle id [o] is treated as possibly matching the empty
    string; for the ids with [rxn o = false] the theorems need the oracle hypothesis that every match
    is non-empty ([all_nullable]: no hypothesis; [none_nullable]: [orc_pos]).
@@ -65,7 +65,8 @@ Definition rank_ok (a : ana) (i : nat) (nd : node) : bool :=
   | KChoice => forallb (fun c => Nat.ltb (rk a c) rn) (n_kids nd)
   | KOpt => hd_or true (fun e => Nat.ltb (rk a e) rn) (n_kids nd)
   | KStar | KPlus => hd_or true (fun e => Nat.ltb (rk a e) rn && negb (tr a e)) (n_kids nd)
-  | KUnord => false
+  | KUnord => forallb (fun c => Nat.ltb (rk a c) rn) (n_kids nd) &&
+              match n_sep nd with Some sp => Nat.ltb (rk a sp) rn | None => true end
   | _ => true
   end.
 
@@ -428,6 +429,48 @@ Proof.
     exists acc. split; [reflexivity | discriminate].
 Qed.
 
+Definition ugr_mono (s0 : st) (o : ugr) : Prop :=
+  match o with UGHit _ _ s1 | UGNone _ s1 => mono s0 s1 | UGAbort _ => True end.
+Lemma ug_try_prog s0 sf cl todo : pos s0 <= cl -> cl <= len -> forall mt s, mono s0 s ->
+  ugr_mono s0 (ug_try rec sf cl todo mt s).
+Proof.
+  intros L1 L2. induction todo as [|e todo IH]; intros mt s M; cbn [ug_try]; [exact M|].
+  pose proof (Hrec e false s (proj1 M)) as G. destruct (rec e false s) as [r s1|s1|w]; cbn in G; [| |exact I].
+  - destruct G as (M1 & _ & _). pose proof (mono_trans _ _ _ M M1) as M01.
+    assert (Mr : mono s0 (set_pos cl s1)).
+    { destruct M01 as (T1 & _ & C1). split; [now apply tinv_set_pos | split; [exact L1 | exact C1]]. }
+    destruct (truthy r); [destruct sf|]; [now apply IH | exact M01 | now apply IH].
+  - pose proof (mono_trans _ _ _ M G) as M01.
+    assert (Mr : mono s0 (set_pos cl s1)).
+    { destruct M01 as (T1 & _ & C1). split; [now apply tinv_set_pos | split; [exact L1 | exact C1]]. }
+    now apply IH.
+Qed.
+
+Definition ugo_mono (s0 : st) (o : ugo) : Prop :=
+  match o with UGDone _ _ s1 => mono s0 s1 | UGOAbort _ => True end.
+Lemma ug_loop_prog s0 sep n : forall todo first sr acc s, mono s0 s ->
+  ugo_mono s0 (ug_loop rec sep n todo first sr acc s).
+Proof.
+  induction n as [|n IH]; intros todo first sr acc s M; destruct todo as [|t0 todo]; cbn [ug_loop];
+    try exact M; try exact I.
+  assert (Hcont : forall sf sr1 s1, mono s0 s1 ->
+    ugo_mono s0 (match ug_try rec sf (pos s1) (t0 :: todo) true s1 with
+                 | UGHit e r s2 => ug_loop rec sep n (remove_first e (t0 :: todo)) false sr1
+                                     ((if truthy sr1 then acc ++ [sr1] else acc) ++ [r]) s2
+                 | UGNone mt s2 => UGDone mt acc (set_pos (pos s) s2)
+                 | UGAbort w => UGOAbort w end)).
+  { intros sf sr1 s1 M1.
+    pose proof (ug_try_prog s0 sf (pos s1) (t0 :: todo) (proj1 (proj2 M1)) (proj1 (proj1 M1)) true s1 M1) as G.
+    destruct (ug_try rec sf (pos s1) (t0 :: todo) true s1) as [e r s2|mt s2|w]; cbn in G; [now apply IH | | exact I].
+    cbn. destruct G as (T2 & _ & C2), M as ((Ps & _) & P & _).
+    split; [now apply tinv_set_pos | split; [exact P | exact C2]]. }
+  destruct sep as [sp|]; [|now apply Hcont]. destruct first; [now apply Hcont|].
+  pose proof (Hrec sp false s (proj1 M)) as G. destruct (rec sp false s) as [sr1 s1|s1|w]; cbn in G; [| |exact I].
+  - apply Hcont. eapply mono_trans; [exact M | apply G].
+  - apply Hcont. pose proof (mono_trans _ _ _ M G) as (T1 & _ & C1). destruct M as ((Ps & _) & P & _).
+    split; [now apply tinv_set_pos | split; [exact P | exact C1]].
+Qed.
+
 End Prog2.
 
 (* ---------------------------------------------------------------- body, parse *)
@@ -542,7 +585,21 @@ Proof.
       * intros _ Tr. destruct (GT eq_refl) as [->|L]; [discriminate Tr | lia].
     + specialize (G ltac:(discriminate)).
       exact (mono_core_r _ _ _ (same_core_leave_eol nd s s1) (mono_core_l _ _ _ Ce G)).
-  - (* UnorderedGroup: outside the class *) discriminate RK.
+  - (* UnorderedGroup *)
+    destruct (n_kids nd) as [|e l] eqn:Kd; [exact I|]. rewrite <- Kd.
+    pose proof (same_core_enter_eol nd s) as Ce.
+    assert (M0 : mono (enter_eol nd s) (enter_eol nd s)) by (apply mono_refl; eapply tinv_core; eassumption).
+    pose proof (ug_loop_prog rec Hrec (enter_eol nd s) (n_sep nd) (S (length (n_kids nd))) (n_kids nd) true RNone []
+                  (enter_eol nd s) M0) as G.
+    destruct (ug_loop rec (n_sep nd) (S (length (n_kids nd))) (n_kids nd) true RNone [] (enter_eol nd s)) as [mt acc s1|w];
+      [|exact I]. cbn in G.
+    pose proof (mono_core_r _ _ _ (same_core_leave_eol nd s s1) (mono_core_l _ _ _ Ce G)) as M'.
+    destruct mt.
+    + split; [exact M' | split; discriminate].
+    + unfold nm_raise. destruct M' as (T1 & P1 & C1). pose proof (proj1 T) as Ps.
+      assert (M1 : mono s (set_pos (pos s) (leave_eol nd s s1)))
+        by (split; [now apply tinv_set_pos | split; [apply Nat.le_refl | exact C1]]).
+      eapply mono_trans; [exact M1 | apply mono_reg_fail, (proj1 M1)].
   - (* And *)
     pose proof (seq_loop_prog rec Hrec false (n_kids nd) [] s T) as G. destruct T as (Ps & _).
     destruct (seq_loop rec false (n_kids nd) [] s) as [r s1|s1|w]; auto.
@@ -736,6 +793,80 @@ Proof.
   - rewrite andb_false_r. discriminate.
 Qed.
 
+Lemma ug_try_nab sf cl todo : pos s0 <= cl -> cl <= len ->
+  forallb (fun c => Nat.ltb (rk a c) (rk a n)) todo = true ->
+  forall mt s, mono s0 s -> forall w, ug_try rec sf cl todo mt s = UGAbort w -> w <> 0.
+Proof.
+  intros L1 L2. induction todo as [|e todo IH]; intros F mt s M w E; cbn [ug_try] in E; [discriminate|].
+  cbn in F. apply andb_true_iff in F as [F1 F2]. apply Nat.ltb_lt in F1.
+  pose proof (Hnab e false s (proj1 M) (below_rank _ _ _ _ M F1)) as NA.
+  pose proof (Hrec e false s (proj1 M)) as G.
+  destruct (rec e false s) as [r s1|s1|w1]; cbn in G; [| |injection E as <-; congruence].
+  - destruct G as (M1 & _ & _). pose proof (mono_trans _ _ _ M M1) as M01.
+    assert (Mr : mono s0 (set_pos cl s1)).
+    { destruct M01 as (T1 & _ & C1). split; [now apply tinv_set_pos | split; [exact L1 | exact C1]]. }
+    destruct (truthy r); [destruct sf|];
+      [exact (IH F2 false (set_pos cl s1) Mr w E) | discriminate E | exact (IH F2 mt s1 M01 w E)].
+  - pose proof (mono_trans _ _ _ M G) as M01.
+    assert (Mr : mono s0 (set_pos cl s1)).
+    { destruct M01 as (T1 & _ & C1). split; [now apply tinv_set_pos | split; [exact L1 | exact C1]]. }
+    exact (IH F2 false (set_pos cl s1) Mr w E).
+Qed.
+
+Lemma ug_try_hit_in sf cl todo : forall mt s e r s1, ug_try rec sf cl todo mt s = UGHit e r s1 -> In e todo.
+Proof.
+  induction todo as [|x todo IH]; intros mt s e r s1 E; cbn [ug_try] in E; [discriminate|].
+  destruct (rec x false s) as [r0 s2|s2|w]; [| |discriminate].
+  - destruct (truthy r0); [destruct sf|].
+    + right. eapply IH; exact E.
+    + injection E as <- _ _. now left.
+    + right. eapply IH; exact E.
+  - right. eapply IH; exact E.
+Qed.
+
+Lemma remove_first_length e l : In e l -> S (length (remove_first e l)) = length l.
+Proof.
+  induction l as [|y l IH]; intro H; [contradiction|]. cbn [remove_first].
+  destruct (Nat.eqb e y) eqn:E; [reflexivity|]. destruct H as [H|H]; [subst; rewrite Nat.eqb_refl in E; discriminate|].
+  cbn. now rewrite IH.
+Qed.
+Lemma remove_first_forallb (f : nat -> bool) e l : forallb f l = true -> forallb f (remove_first e l) = true.
+Proof.
+  induction l as [|y l IH]; intro H; [reflexivity|]. cbn in H |- *. apply andb_true_iff in H as [H1 H2].
+  destruct (Nat.eqb e y); [exact H2 | cbn; now rewrite H1, IH].
+Qed.
+
+Lemma ug_loop_nab sep : match sep with Some sp => rk a sp < rk a n | None => True end ->
+  forall k todo first sr acc s,
+  forallb (fun c => Nat.ltb (rk a c) (rk a n)) todo = true -> length todo < k -> mono s0 s ->
+  forall w, ug_loop rec sep k todo first sr acc s = UGOAbort w -> w <> 0.
+Proof.
+  intros Hsep. induction k as [|k IH]; intros todo first sr acc s F L M w E; [lia|].
+  destruct todo as [|t0 todo]; cbn [ug_loop] in E; [discriminate|].
+  assert (Hcont : forall sf sr1 s1, mono s0 s1 ->
+    (match ug_try rec sf (pos s1) (t0 :: todo) true s1 with
+     | UGHit e r s2 => ug_loop rec sep k (remove_first e (t0 :: todo)) false sr1
+                         ((if truthy sr1 then acc ++ [sr1] else acc) ++ [r]) s2
+     | UGNone mt s2 => UGDone mt acc (set_pos (pos s) s2)
+     | UGAbort w => UGOAbort w end) = UGOAbort w -> w <> 0).
+  { intros sf sr1 s1 M1 E1.
+    pose proof (ug_try_nab sf (pos s1) (t0 :: todo) (proj1 (proj2 M1)) (proj1 (proj1 M1)) F true s1 M1) as NA.
+    pose proof (ug_try_prog rec Hrec s0 sf (pos s1) (t0 :: todo) (proj1 (proj2 M1)) (proj1 (proj1 M1)) true s1 M1) as G.
+    pose proof (ug_try_hit_in sf (pos s1) (t0 :: todo) true s1) as Hin.
+    destruct (ug_try rec sf (pos s1) (t0 :: todo) true s1) as [e r s2|mt s2|w2]; cbn in G.
+    - specialize (Hin e r s2 eq_refl). pose proof (remove_first_length e _ Hin) as Hl.
+      eapply IH; [apply remove_first_forallb; exact F | | exact G | exact E1]. cbn [length] in *. lia.
+    - discriminate E1.
+    - injection E1 as <-. now apply NA. }
+  destruct sep as [sp|]; [|eapply Hcont; eassumption]. destruct first; [eapply Hcont; eassumption|].
+  pose proof (Hnab sp false s (proj1 M) (below_rank _ _ _ _ M Hsep)) as NA.
+  pose proof (Hrec sp false s (proj1 M)) as G.
+  destruct (rec sp false s) as [sr1 s1|s1|w1]; cbn in G; [| |injection E as <-; congruence].
+  - eapply Hcont; [|exact E]. eapply mono_trans; [exact M | apply G].
+  - eapply Hcont; [|exact E]. pose proof (mono_trans _ _ _ M G) as (T1 & _ & C1). destruct M as ((Ps & _) & P & _).
+    split; [now apply tinv_set_pos | split; [exact P | exact C1]].
+Qed.
+
 Lemma body_nab k nd s : get_node g n = Some nd -> mono s0 s -> pos s = pos s0 -> len - pos s < k ->
   body rec k nd s <> Abort 0.
 Proof.
@@ -768,6 +899,18 @@ Proof.
     assert (Pe : pos (enter_eol nd s) = pos s) by apply Ce.
     pose proof (rep_loop_nab e (n_sep nd) true He Re k true [] (enter_eol nd s) Me ltac:(discriminate) ltac:(lia)) as NA.
     destruct (rep_loop rec e (n_sep nd) true k true [] (enter_eol nd s)); [discriminate | discriminate | congruence].
+  - (* UnorderedGroup *)
+    apply andb_true_iff in RK as [RKk RKs].
+    destruct (n_kids nd) as [|e l] eqn:Kd; [discriminate|]. rewrite <- Kd in *.
+    pose proof (same_core_enter_eol nd s) as Ce.
+    assert (Me : mono s0 (enter_eol nd s)) by (apply (mono_core_r _ s); assumption).
+    assert (Hsep : match n_sep nd with Some sp => rk a sp < rk a n | None => True end).
+    { destruct (n_sep nd); [now apply Nat.ltb_lt in RKs | exact I]. }
+    pose proof (ug_loop_nab (n_sep nd) Hsep (S (length (n_kids nd))) (n_kids nd) true RNone [] (enter_eol nd s)
+                  RKk (Nat.lt_succ_diag_r _) Me) as NA.
+    destruct (ug_loop rec (n_sep nd) (S (length (n_kids nd))) (n_kids nd) true RNone [] (enter_eol nd s)) as [mt acc s1|w].
+    + destruct mt; discriminate.
+    + specialize (NA w eq_refl). congruence.
   - pose proof (seq_loop_nab false (n_kids nd) [] s M0 (or_intror RK)) as NA.
     destruct (seq_loop rec false (n_kids nd) [] s); [discriminate | discriminate | congruence].
   - pose proof (seq_loop_nab false (n_kids nd) [] s M0 (or_intror RK)) as NA.
